@@ -139,10 +139,11 @@ func (s Seg) Kind() (k SegKind, other bool) {
 			return KPlaceholder, false
 		}
 	}
-	// a parameter list whose first value is the literal ** is a match-all
+	// a parameter list whose first value is the literal ** is a match-all (a capture limit may be negative: as
+	// zero, it means no limit)
 	if f := s.Elems[0]; f.Kind == Params && !f.Params[0].IsRegex && f.Params[0].Value == "**" {
 		clean := len(s.Elems) == 1 && (len(f.Params) == 1 ||
-			(len(f.Params) == 2 && f.Params[1].Name == "capture" && !f.Params[1].IsRegex && isDigits(f.Params[1].Value)))
+			(len(f.Params) == 2 && f.Params[1].Name == "capture" && !f.Params[1].IsRegex && isDigits(strings.TrimPrefix(f.Params[1].Value, "-"))))
 		return KMatchAll, !clean
 	}
 	for _, e := range s.Elems {
